@@ -7,6 +7,7 @@
           | ( factor <ophex> E ) | ( chain <handlerhex> E <ophex> E … ) | ( group E ) | ( call <fnhex> E … )
     oracle <key> <answer>              one observation of the float interpretation (see below)           → ok
     impl <keyhex>                      execImpl of that member in the whole environment                  → value | error
+    unesc <bodyhex>                    decodeOct of a string-literal body (octal escapes only)                → hex
     py <mode> <keyhex>                 evalPy (mode = py | strict) of that member with the members before it bound → value | error
 
   values:  int <decimal> | float <float.hex from the oracle> | str <hex of the string>
@@ -240,6 +241,7 @@ def step (st : St) : List String → St × String
       | .ok v => (st, showVal st.oracle Str.hex v)
       | .error er => (st, showPyErr er)
     | _, _ => (st, "bad-op")
+  | ["unesc", body] => (st, Str.hex (decodeOct (unhexD body)))
   | _ => (st, "bad-op")
 
 def run : IO Unit := runFamily step ({} : St)
